@@ -88,8 +88,16 @@ AckForgedCode == /\ Ackable # {} /\ "ackcode" \in AckAlts
               /\ \E p \in {Pick(Ackable)} : \E k \in {Pick(GoodAckHeights(p))} : \E s \in {Pick(Signers)} :
                     Ack(p.src, p, AckCode(WrittenCode(p), "ackcode"), "none", "ackcode", k, "ok", s)
 
+(* a replay of an acknowledgement that was already processed, with a perfectly valid proof (the acknowledgement stays *)
+(* provable on the destination for ever)                                                                            *)
+Acked == {p \in sent : T(p) \in DOMAIN status[p.src] /\ status[p.src][T(p)] # 0 /\ GoodAckHeights(p) # {}}
+Refunds == {p \in Acked : status[p.src][T(p)] = 2}          \* a replayed error acknowledgement would refund twice
+AckDup == /\ Acked # {}
+          /\ \E p \in {IF Refunds # {} /\ Pick(1..3) > 1 THEN Pick(Refunds) ELSE Pick(Acked)} : \E k \in {Pick(GoodAckHeights(p))} : \E s \in {Pick(Signers)} :
+                Ack(p.src, p, WrittenCode(p), "none", "none", k, "ok", s)
+
 Useful  == CommitUseful \/ UpdateUseful \/ RecvUseful \/ AckUseful \/ SendR \/ SendBackR
-Hostile == SendR \/ CommitR \/ UpdateR \/ RecvGood \/ RecvR \/ RecvDup \/ AckGood \/ AckR \/ RecvForged \/ AckForged \/ AckForgedCode
+Hostile == SendR \/ CommitR \/ UpdateR \/ RecvGood \/ RecvR \/ RecvDup \/ AckGood \/ AckR \/ RecvForged \/ AckForged \/ AckForgedCode \/ AckDup
 
 MInit == Init /\ hist = << >>
 
